@@ -1,6 +1,7 @@
 import GoLevel.Proofs.DurableView
 import GoLevel.Proofs.ConcView
 import GoLevel.Props.C01
+import GoLevel.Proofs.RecoverOpsMain
 /-!
 # Property C19 — `Recover`
 
@@ -22,6 +23,20 @@ the largest sequence number in the tables (`Settled`); sequence numbers identify
   for that key;
 * `rebuilt_lookup_refines_view`: the rebuilt version is all level 0, its tables may overlap arbitrarily; the
   max-sequence rule of `version.get` still returns `view` (instance of `C01.lookup_refines_view`).
+
+`Recover` as storage operations (`Model/RecoverOps.lean`: `recoverTable`'s scan / temp file / `Sync` / `Rename`, the
+one-step manifest switch of `newManifest`, then `openDB`'s journal flushes, commits, removals and janitor) ties the
+three theorems to the code's operation sequence and adds crash-atomicity:
+
+* `recover_ops_equals_rebuild`: when `recoverTable` returns, `openDB` (`Dur.recoverR` on the storage) computes
+  exactly `Dur.rebuild` of what the scan read;
+* `recover_crash_atomic`: stop `Recover` after any of its storage operations, take any crash image: a second
+  `Recover` reads, for every key, what the uninterrupted one would have read (`…_settled`: the settled contents;
+  `…_damaged`: the `recover_rebuilds_damaged` guarantee);
+* `recover_crash_open_partial`: on every crash image taken inside `recoverTable`, an `Open` that succeeds has run on
+  the manifest `Recover` wrote and is complete (false before commit 170f82e: `pre_repair_empty_manifest_loses_tables`;
+  the flag is tied to the source by `code_recover_commits_only`).  For crash points inside `openDB` the statement
+  (`recover_crash_open_full`) is that of an interrupted ordinary `Open` (C04) and is not proved over this model.
 
 Not covered here: D19 (the rebuild of a damaged table is written with the user comparer and unwrapped filter)
 is about the bytes of the rewritten table, below this model.
@@ -218,9 +233,286 @@ example :
       (fun sd => (rebuild (rebuildInOf { sd.2 with current := none, manifests := [] })).get bytewise [107]) =
     some (some [118]) := by decide
 
+/-! ## `Recover` as a sequence of storage operations -/
+
+/-- the model follows the code in the tree: `recoverTable` commits once and does nothing else to the manifest
+    (`tools/extract`: no `s.create()`, no `newManifest`, no `SetMeta`; last statement `return s.commit(rec, false)`),
+    and `newManifest` is `Create`, one record, `Sync`, `SetMeta` -/
+theorem code_recover_commits_only :
+    (∀ s, (codeRCfg s).createsEmptyManifestFirst = false) ∧ Gen.recoverTableCommitsOnly = true ∧
+    Gen.newManifestWriteSyncSetMeta = true := by decide
+
+/-- **the operations compute the abstract rebuild**: when `recoverTable` has made all its operations, `openDB`'s
+    `session.recover` + journal replay (`Dur.recoverR`) succeeds on the storage, runs on the recorded tables, and
+    delivers exactly the entries, the sequence number and hence every read of `Dur.rebuild` applied to what the scan
+    read — so `recover_rebuilds`, `recover_rebuilds_damaged` and `rebuilt_lookup_refines_view` speak about the
+    operational model. -/
+theorem recover_ops_equals_rebuild (dcfg : Dur.Cfg) {cfg : RCfg} (hcfg : cfg.createsEmptyManifestFirst = false)
+    (r0 : RDisk) (hd : r0.durable) (c : UCmp) (k : Bytes) :
+    ∃ rs, recoverR dcfg (r0.applyAll (recoverTableOps cfg r0)).disk = .ok rs ∧
+      rs.entries = (rebuild (scanIn cfg r0)).entries ∧ rs.seq = (rebuild (scanIn cfg r0)).seq ∧
+      rs.get c k = (rebuild (scanIn cfg r0)).get c k ∧
+      rs.mv.live = (tablePhase cfg r0).2.added ∧ rs.mv.jn = 0 := by
+  obtain ⟨hT, hc, mf, hm, ha⟩ := recoverTable_done hcfg hd
+  obtain ⟨rs, h1, h2, h3, h4⟩ := open_on_recover_manifest dcfg hT hc hm ha
+  refine ⟨rs, h1, h2, h3, ?_, h4, ?_⟩
+  · unfold RState.get Rebuilt.get; rw [h2, h3]
+  · -- the view is that of the one record
+    unfold recoverR at h1
+    simp only [hc, hm, ha, recoverRec_view] at h1
+    split at h1
+    · cases h1
+    · cases h1; rfl
+
+/-- what `JCtx` and `rebuild_mid` need, from `Settled` -/
+theorem jctx_of_settled {cfg : RCfg} {r0 : RDisk} (hd : r0.durable)
+    (hjs : r0.disk.journals.Pairwise (fun p q => p.1 < q.1)) (h : Settled (scanIn cfg r0)) : JCtx cfg r0 :=
+  ⟨hjs, hd.2.1, h.asc⟩
+
+/-- **`Recover` is crash-atomic.**  `r0`: a durable storage (the image a crash or exit left) whose readable part is
+    settled; `k`: how many of `Recover`'s storage operations were made — table rebuilds, the manifest switch, the
+    journal flushes, commits and removals of `openDB`, the janitor — before the machine died; `ch`: what the crash
+    left of unsynced data.  A `Recover` run on that image reads, for every key, what the uninterrupted `Recover`
+    reads, and ends with the same set of entries. -/
+theorem recover_crash_atomic (c : UCmp) {cfg : RCfg} (r0 : RDisk) (hd : r0.durable)
+    (hjs : r0.disk.journals.Pairwise (fun p q => p.1 < q.1)) (hdm : ∀ n ∈ r0.dmg, n ∈ r0.disk.tables.nums)
+    (h : Settled (scanIn cfg r0)) (k : Nat) (ch : RCrash) (key : Bytes) :
+    (rebuild (scanIn cfg (crashAt cfg r0 k ch))).get c key = (rebuild (scanIn cfg r0)).get c key ∧
+    ∀ e, e ∈ (rebuild (scanIn cfg (crashAt cfg r0 k ch))).entries ↔ e ∈ (rebuild (scanIn cfg r0)).entries := by
+  obtain ⟨P, Q, R, hmid⟩ := recover_reach_atomic hd (jctx_of_settled hd hjs h) hdm k ch
+  exact rebuild_mid h.uniq h.asc h.wf hmid key
+
+/-- undamaged tables: the second `Recover` returns exactly the settled contents -/
+theorem recover_crash_atomic_settled (c : UCmp) {cfg : RCfg} (r0 : RDisk) (hd : r0.durable)
+    (hjs : r0.disk.journals.Pairwise (fun p q => p.1 < q.1)) (hdm : ∀ n ∈ r0.dmg, n ∈ r0.disk.tables.nums)
+    (h : Settled (scanIn cfg r0)) (s0 : Nat)
+    (hs0 : ∀ e ∈ (scanIn cfg r0).tables.flatMap (·.2) ++ ((scanIn cfg r0).journals.flatMap (·.2)).flatMap Grp.ents,
+      e.seq ≤ s0)
+    (k : Nat) (ch : RCrash) (key : Bytes) :
+    (rebuild (scanIn cfg (crashAt cfg r0 k ch))).get c key =
+      view c ((scanIn cfg r0).tables.flatMap (·.2) ++ ((scanIn cfg r0).journals.flatMap (·.2)).flatMap Grp.ents)
+        key s0 := by
+  rw [(recover_crash_atomic c r0 hd hjs hdm h k ch key).1]
+  exact (recover_rebuilds c (scanIn cfg r0) h s0 hs0 key).2
+
+/-- the readable part of a settled DB is settled -/
+theorem Settled.of_damaged {inp inp' : RebuildIn} (h : Settled inp) (hd : Damaged inp inp') : Settled inp' := by
+  refine ⟨?_, ?_, ?_⟩
+  · rw [hd.journals]
+    apply h.uniq.sub
+    intro e he
+    rcases List.mem_append.1 he with h1 | h1
+    · exact List.mem_append_left _ (hd.part e h1)
+    · exact List.mem_append_right _ h1
+  · rw [hd.journals]
+    exact h.asc.mono (maxSeqOf_le (fun e he => maxSeqOf_ge _ e (hd.part e he)))
+  · rw [hd.journals]; exact h.wf
+
+/-- damaged tables: the second `Recover` gives the guarantee of `recover_rebuilds_damaged` relative to the
+    undamaged DB `inp` — nothing invented, and every readable entry without a newer version is what is returned -/
+theorem recover_crash_atomic_damaged {c : UCmp} (hl : LawfulUCmp c) {cfg : RCfg} (r0 : RDisk) (hd : r0.durable)
+    (hjs : r0.disk.journals.Pairwise (fun p q => p.1 < q.1)) (hdm : ∀ n ∈ r0.dmg, n ∈ r0.disk.tables.nums)
+    (inp : RebuildIn) (h : Settled inp) (hdmg : Damaged inp (scanIn cfg r0)) (k : Nat) (ch : RCrash) :
+    (∀ e ∈ (rebuild (scanIn cfg (crashAt cfg r0 k ch))).entries, e ∈ (rebuild inp).entries) ∧
+    ∀ e ∈ (rebuild (scanIn cfg (crashAt cfg r0 k ch))).entries,
+      (∀ e' ∈ (rebuild inp).entries, c.cmp e'.ukey e.ukey = .eq → e'.key.num ≤ e.key.num) →
+      (rebuild (scanIn cfg (crashAt cfg r0 k ch))).get c e.ukey = e.hit.toOption := by
+  have h' : Settled (scanIn cfg r0) := h.of_damaged hdmg
+  obtain ⟨d1, d2⟩ := recover_rebuilds_damaged hl inp (scanIn cfg r0) h hdmg
+  refine ⟨fun e he => d1 e ((recover_crash_atomic c r0 hd hjs hdm h' k ch []).2 e |>.1 he), fun e he hnew => ?_⟩
+  rw [(recover_crash_atomic c r0 hd hjs hdm h' k ch e.ukey).1]
+  exact d2 e ((recover_crash_atomic c r0 hd hjs hdm h' k ch []).2 e |>.1 he) hnew
+
+/-- **an `Open` that succeeds on a crash image of `recoverTable` is complete** (the code since 170f82e).  `r0`: a
+    durable storage whose `CURRENT` does not lead to a readable manifest; the crash comes after `k` operations of
+    `recoverTable` (scan, rebuilds, `newManifest`: `Create`, record, `Sync`, `SetMeta`).  If `Open` succeeds on the
+    image it delivers exactly the entries and sequence number of `Dur.rebuild`, and — unless there was no table and no
+    journal at all — `CURRENT` names the manifest `Recover` wrote, which holds its one record with all recovered
+    tables. -/
+theorem recover_crash_open_partial (dcfg : Dur.Cfg) (hc : dcfg.failedRecordLeavesNoTrace = true) {cfg : RCfg}
+    (hcfg : cfg.createsEmptyManifestFirst = false) (r0 : RDisk) (hd : r0.durable) (hold : OldUnreadable dcfg r0)
+    (k : Nat) (hk : k ≤ (recoverTableOps cfg r0).length) (ch : RCrash) (rs : RState)
+    (hopen : recoverR dcfg (crashAt cfg r0 k ch).disk = .ok rs) :
+    rs.entries = (rebuild (scanIn cfg r0)).entries ∧ rs.seq = (rebuild (scanIn cfg r0)).seq ∧
+    ((r0.disk.tables ≠ [] ∨ r0.disk.journals ≠ []) →
+      (crashAt cfg r0 k ch).disk.current = some (manifestNum r0) ∧
+      ∃ mf, lookup (crashAt cfg r0 k ch).disk.manifests (manifestNum r0) = some mf ∧
+        mf.all = [recoverRec (manifestNum r0) (tablePhase cfg r0).2] ∧
+        rs.mv.live = (tablePhase cfg r0).2.added) := by
+  obtain ⟨r', hr, e⟩ := crashAt_recoverTable hk ch
+  rw [e] at hopen ⊢
+  obtain ⟨hT, hG⟩ := recoverTable_reach hc hcfg hd hold hr ch
+  exact open_of_mgood dcfg hT hold hG hopen
+
+/-- the same for every crash point, those inside `openDB` included.  Not proved over this model: from the return of
+    `recoverTable` on, the storage is that of an ordinary `Open` that replays journals, whose crash consistency is
+    C04 (`C04.crash_consistent`, over `Dur.step`'s recovery steps `recOpen`/`recStep`/`job`); the simulation
+    between `openOps` and those steps is missing.  (`open_complete_on_example` checks it on the example.) -/
+def recover_crash_open_full : Prop :=
+  ∀ (dcfg : Dur.Cfg), dcfg.failedRecordLeavesNoTrace = true → ∀ (c : UCmp) (cfg : RCfg),
+    cfg.createsEmptyManifestFirst = false → ∀ (r0 : RDisk), r0.durable → OldUnreadable dcfg r0 →
+    r0.disk.journals.Pairwise (fun p q => p.1 < q.1) → (∀ n ∈ r0.dmg, n ∈ r0.disk.tables.nums) →
+    Settled (scanIn cfg r0) → ∀ (k : Nat) (ch : RCrash) (rs : RState),
+    recoverR dcfg (crashAt cfg r0 k ch).disk = .ok rs → ∀ key, rs.get c key = (rebuild (scanIn cfg r0)).get c key
+
+/-! ### non-vacuity: two tables, one with a corrupted block, one journal, a garbage manifest -/
+
+def g1 : Grp := ⟨1, [⟨1, [107], [1]⟩], true⟩
+/-- table 6 held `Put(l, 2)`, `Put(m, 3)` (sequence 2, 3) … -/
+def g2 : Grp := ⟨2, [⟨1, [108], [2]⟩, ⟨1, [109], [3]⟩], true⟩
+/-- … the block with `l` is corrupted: an iterator still yields `m` -/
+def g2r : Grp := ⟨3, [⟨1, [109], [3]⟩], true⟩
+def g4 : Grp := ⟨4, [⟨1, [107], [4]⟩], true⟩
+def g5 : Grp := ⟨5, [⟨0, [109], []⟩], false⟩
+
+/-- tables 4 and 6 (6 damaged), journal 8 with `Put(k, 4)` and `Delete(m)`, `CURRENT` → manifest 9, which holds a
+    torn record only -/
+def exR : RDisk :=
+  { disk := { current := some 9
+              manifests := [(9, ⟨[{ torn := true }], []⟩)]
+              journals := [(8, ⟨[g4, g5], []⟩)]
+              tables := [(4, ⟨[g1], true, false⟩), (6, ⟨[g2r], true, false⟩)] }
+    dmg := [6] }
+
+/-- the DB before the damage -/
+def exOrig : RebuildIn :=
+  { tables := [(4, g1.ents), (6, g2.ents)], journals := [(8, [g4, g5])] }
+
+theorem exR_durable : exR.durable := by decide
+theorem exR_old_unreadable : OldUnreadable {} exR := by
+  intro c mf h1 h2
+  have hc : c = 9 := by cases h1; rfl
+  subst hc
+  have : mf = ⟨[{ torn := true }], []⟩ := by
+    have : lookup exR.disk.manifests 9 = some ⟨[{ torn := true }], []⟩ := by decide
+    rw [this] at h2; cases h2; rfl
+  subst this
+  decide
+theorem exR_settled : Settled (scanIn {} exR) :=
+  ⟨by unfold Uniq; decide, by decide, by unfold Grp.wf; decide⟩
+theorem exOrig_settled : Settled exOrig :=
+  ⟨by unfold Uniq; decide, by decide, by unfold Grp.wf; decide⟩
+theorem exR_damaged : Damaged exOrig (scanIn {} exR) := ⟨by decide, by decide⟩
+
+/-- the operations of `Recover` on the example: table 6 is rebuilt through temp file 0, manifest 7 is written and
+    made current, journal 8 is flushed to table 9, journal 10 is created, the edit is committed, journal 8 removed
+    (manifest 9 is not older than 7: `checkAndCleanFiles` keeps it) -/
+example : recoverOps {} exR =
+    [.createTemp 0, .writeTemp 0 [g2r], .syncTemp 0, .renameTemp 0 6,
+     .base (.create .manifest 7),
+     .base (.writeM 7 { snapshot := true, jn := some 0, sq := some 3, nf := 8, added := [4, 6] }),
+     .base (.sync .manifest 7), .base (.setMeta 7),
+     .base (.create .table 9), .base (.writeT 9 [g4, g5]), .base (.sync .table 9),
+     .base (.create .journal 10), .base (.writeM 7 { jn := some 10, sq := some 6, nf := 11, added := [9] }),
+     .base (.sync .manifest 7), .base (.remove .journal 8)] := by decide
+
+/-- `recover_ops_equals_rebuild` on the example: `m` is deleted, `k` has its newer value, `l` sat in the corrupted
+    block -/
+example : (recoverR {} (exR.applyAll (recoverTableOps {} exR)).disk).toOption.map
+      (fun rs => (rs.get bytewise [107], rs.get bytewise [108], rs.get bytewise [109], rs.mv.live)) =
+    some (some [4], none, none, [4, 6]) ∧
+    ((rebuild (scanIn {} exR)).get bytewise [107], (rebuild (scanIn {} exR)).get bytewise [109]) = (some [4], none) := by
+  decide
+
+example : ∃ rs, recoverR {} (exR.applyAll (recoverTableOps {} exR)).disk = .ok rs ∧
+    rs.get bytewise [107] = (rebuild (scanIn {} exR)).get bytewise [107] := by
+  obtain ⟨rs, h1, _, _, h4, _⟩ := recover_ops_equals_rebuild {} (cfg := {}) rfl exR exR_durable bytewise [107]
+  exact ⟨rs, h1, h4⟩
+
+/-- crash after the `Rename` (4 operations), after the unsynced manifest record (6), in the middle of the journal
+    flush (10, table 9 lost): the second `Recover` reads the same -/
+example : ∀ k ∈ [4, 6, 10], (rebuild (scanIn {} (crashAt {} exR k {}))).get bytewise [107] = some [4] := by decide
+
+example (k : Nat) (ch : RCrash) :
+    (rebuild (scanIn {} (crashAt {} exR k ch))).get bytewise [107] = (rebuild (scanIn {} exR)).get bytewise [107] :=
+  (recover_crash_atomic bytewise exR exR_durable (by decide) (by decide) exR_settled k ch [107]).1
+
+/-- the damaged-table guarantee after a crash: `k`'s newest version is in the journal, it is returned -/
+example (k : Nat) (ch : RCrash) : ∀ e ∈ (rebuild (scanIn {} (crashAt {} exR k ch))).entries, e ∈ (rebuild exOrig).entries :=
+  (recover_crash_atomic_damaged bytewise_lawful exR exR_durable (by decide) (by decide) exOrig exOrig_settled
+    exR_damaged k ch).1
+
+/-- `recover_crash_open_partial` on the example: before `SetMeta` (7 operations) `Open` refuses — `CURRENT` still
+    names the garbage manifest; after it (8) `Open` succeeds on manifest 7 with both tables -/
+example : (recoverR {} (crashAt {} exR 7 {}).disk).toOption.map (·.mv.live) = none ∧
+    (recoverR {} (crashAt {} exR 8 {}).disk).toOption.map (fun rs => (rs.mv.live, rs.get bytewise [107])) =
+      some ([4, 6], some [4]) := by decide
+
+example (rs : RState) (h : recoverR {} (crashAt {} exR 8 {}).disk = .ok rs) : rs.mv.live = [4, 6] := by
+  obtain ⟨_, _, h3⟩ := recover_crash_open_partial {} rfl (cfg := {}) rfl exR exR_durable exR_old_unreadable 8
+    (by decide) {} rs h
+  obtain ⟨_, _, _, _, h4⟩ := h3 (Or.inl (by decide))
+  rw [h4]; decide
+
+/-- the crash images used for bounded checks: everything unsynced lost, everything kept, the manifest record torn -/
+def exChoices : List RCrash :=
+  [{}, { base := { cutM := fun _ => 5, cutJ := fun _ => 5, keepT := fun _ => true }, keepTemp := fun _ => true },
+   { base := { tornM := fun _ => true } }]
+
+/-- on the crash image after `k` operations, `Open` refuses or reads the three keys as `Recover` does -/
+def openOKAt (k : Nat) (ch : RCrash) : Bool :=
+  match recoverR {} (crashAt {} exR k ch).disk with
+  | .error _ => true
+  | .ok rs => [[107], [108], [109]].all fun key =>
+      decide (rs.get bytewise key = (rebuild (scanIn {} exR)).get bytewise key)
+
+/-- `recover_crash_open_full` checked on the example: at every crash point of the whole of `Recover` (15
+    operations) and for the three crash images, `Open` refuses or reads what `Recover` reads; it does succeed from the
+    `SetMeta` on -/
+theorem open_complete_on_example :
+    ((List.range 17).all fun k => exChoices.all fun ch => openOKAt k ch) = true ∧
+    ((List.range 17).filter fun k => (recoverR {} (crashAt {} exR k {}).disk).toOption.isSome) =
+      [8, 9, 10, 11, 12, 13, 14, 15, 16] := by
+  decide
+
+/-! ### the code as found (D33): an empty manifest became current first -/
+
+/-- the code before 170f82e -/
+def preRepair : RCfg := { createsEmptyManifestFirst := true }
+
+/-- **D33.**  The operations of the old `recoverTable` on the example: after the 8th, `SetMeta` of the *empty*
+    manifest 7, the machine dies.  `Open` succeeds on the image — on a version without tables; `k` is read from the
+    journal, `m`'s and the older data of the tables are gone; and `Open`'s janitor (`Dur.step`: `recOpen`, the journal
+    loop, the final commit, `checkAndCleanFiles`) removes tables 4 and 6.  With the repaired code the same crash
+    point has `CURRENT` on the complete manifest. -/
+theorem pre_repair_empty_manifest_loses_tables :
+    (recoverTableOps preRepair exR).take 8 =
+      [.createTemp 0, .writeTemp 0 [g2r], .syncTemp 0, .renameTemp 0 6, .base (.create .manifest 7),
+       .base (.writeM 7 { snapshot := true, jn := some 0, sq := some 0, nf := 8 }), .base (.sync .manifest 7),
+       .base (.setMeta 7)] ∧
+    (recoverR {} (crashAt preRepair exR 8 {}).disk).toOption.map (fun rs => (rs.mv.live, rs.tableGrps)) =
+      some ([], []) ∧
+    (run {} ({}, (crashAt preRepair exR 8 {}).disk)
+        ([.recOpen, .recStep, .recStep] ++ List.replicate 19 (.job false .ok))).map
+      (fun sd => (sd.1.phase, sd.2.tables.nums)) = some (.running, [9]) ∧
+    (recoverR {} (crashAt {} exR 8 {}).disk).toOption.map (·.mv.live) = some [4, 6] := by
+  decide
+
+/-- the old code is not crash-atomic for `Open`: the statement of `recover_crash_open_partial` fails for it -/
+theorem pre_repair_open_incomplete :
+    ∃ (k : Nat) (rs : RState), k ≤ (recoverTableOps preRepair exR).length ∧
+      recoverR {} (crashAt preRepair exR k {}).disk = .ok rs ∧
+      rs.entries ≠ (rebuild (scanIn preRepair exR)).entries := by
+  refine ⟨8, ?_⟩
+  have hsome : (recoverR {} (crashAt preRepair exR 8 {}).disk).toOption.isSome = true := by decide
+  cases h : recoverR {} (crashAt preRepair exR 8 {}).disk with
+  | error e => rw [h] at hsome; cases hsome
+  | ok rs =>
+    refine ⟨rs, by decide, rfl, ?_⟩
+    have : (recoverR {} (crashAt preRepair exR 8 {}).disk).toOption.map (·.entries) ≠
+        some (rebuild (scanIn preRepair exR)).entries := by decide
+    intro e
+    apply this
+    rw [h, ← e]; rfl
+
 /-- The property theorems of this file (for the audit). -/
 def theorems : List String :=
   ["GoLevel.C19.recover_rebuilds", "GoLevel.C19.recover_rebuilds_damaged",
-   "GoLevel.C19.rebuilt_lookup_refines_view"]
+   "GoLevel.C19.rebuilt_lookup_refines_view",
+   "GoLevel.C19.code_recover_commits_only", "GoLevel.C19.recover_ops_equals_rebuild",
+   "GoLevel.C19.recover_crash_atomic", "GoLevel.C19.recover_crash_atomic_settled",
+   "GoLevel.C19.recover_crash_atomic_damaged", "GoLevel.C19.recover_crash_open_partial",
+   "GoLevel.C19.open_complete_on_example", "GoLevel.C19.pre_repair_empty_manifest_loses_tables",
+   "GoLevel.C19.pre_repair_open_incomplete"]
 
 end GoLevel.C19
